@@ -1,5 +1,5 @@
 """C02 tree iterators stay correct while the tree is modified between Next calls (SortedMap 'fresh' rule)."""
-from common import mc, lts_replay, drive_tv
+from common import mc, mc_must_fail, lts_replay, drive_tv
 
 
 def design(ctx):
@@ -10,6 +10,13 @@ def design(ctx):
         pairs = [pairs[i] for i in (0, 4, 8, 10, 14, 17)]
     for d, lo, hi in pairs:
         mc(ctx, "tree", "TreeCursor", "cur_%s_%s_%s.cfg" % (d, lo, hi), "TreeCursor %s %s %s" % (d, lo, hi), coverage=False, workers=4)
+    # D (structural): BTreeCursor.tla - the pointer tree with node identity, "right.n = 0", gen, and the cursor
+    #    (curr, i, k, gen) with lost() / seek / Next / Prev / refind; every interleaving of Put / Delete / Next over
+    #    5 (6, 7) keys with fan-out 4: mutations that split, merge, rotate or unlink the node the iterator is parked
+    #    in, collapse the root, empty the tree. Without "right.n = 0" the rule is violated (teeth).
+    for cfg in (("bc5_fwd.cfg", "bc5_rev.cfg") if ctx.quick() else ("bc_fwd.cfg", "bc_rev.cfg", "bc_fwd_b.cfg", "bc_rev_b.cfg", "bc_fwd7.cfg", "bc_rev7.cfg")):
+        mc(ctx, "tree", "BTreeCursor", cfg, "BTreeCursor " + cfg, coverage=False, workers=16, timeout=3000)
+    mc_must_fail(ctx, "tree", "BTreeCursor", "bc5_nozero.cfg", "mergeTwo without right.n = 0", expect="NotBad")
 
 
 def run(ctx):
